@@ -72,6 +72,7 @@ def main():
     ap.add_argument('--tier', default=os.environ.get('VERIF_TIER', 'quick'))
     ap.add_argument('--replay')
     ap.add_argument('--setup', action='store_true')
+    ap.add_argument('--worker', help='internal: run the domain of one extra seed and dump the outcome to this file')
     a = ap.parse_args()
     if a.setup:
         sys.exit(setup())
@@ -81,7 +82,13 @@ def main():
     t0 = time.time()
     mod = importlib.import_module('props.' + pid)
 
-    with core.BuildLock():
+    if a.worker:
+        # the parent holds everything built; only locate the driver
+        import glob
+        ds = glob.glob(os.path.join(core.BUILD, 'driver-*'))
+        driver, dlog, tstatus, tout, props, forb, chk = (ds[0] if ds else None), 'worker', {}, '', {'ok': True, 'theorems': [], 'assumptions': {}}, [], None
+    with core.BuildLock() if not a.worker else open(os.devnull) as _:
+      if not a.worker:
         trc, tout, tstatus = core.translate()
         driver, dlog = core.build_model()
         props = core.check_props(pid)
@@ -106,6 +113,19 @@ def main():
     ctx.budget = 1.0 if tier == 'quick' else float(os.environ.get('VERIF_THOROUGH_FACTOR', '12'))
     ctx.translator = tstatus
 
+    # ---- worker mode (thorough tier fans out over seeds; no build steps, no evidence)
+    if a.worker:
+        try:
+            mod.run(ctx)
+            err = None
+        except Exception:
+            err = traceback.format_exc()
+        json.dump(core.jsonable({'seed': seed, 'evaluations': res.evaluations, 'nontrivial': len(res.nontrivial), 'failures': res.failures[:50],
+                                 'dist': res.dist, 'error': err, 'model_calls': ctx.model.calls if ctx.model else 0}), open(a.worker, 'w'))
+        if ctx.model:
+            ctx.model.close()
+        sys.exit(0)
+
     # ---- replay mode
     if a.replay:
         rp = json.load(open(a.replay))
@@ -125,6 +145,40 @@ def main():
     except Exception as e:
         harness_error = traceback.format_exc()
         print(harness_error)
+
+    # ---- thorough: the same domain under further seeds, in parallel processes
+    fan = None
+    nworkers = int(os.environ.get('VERIF_THOROUGH_WORKERS', '6')) if tier == 'thorough' else 0
+    if nworkers and ctx.model is not None and harness_error is None:
+        import subprocess, tempfile
+        tmpd = tempfile.mkdtemp(prefix='verif_fan_')
+        procs = []
+        for w in range(nworkers):
+            env = dict(os.environ, VERIF_SEED=str(seed * 1000 + 101 + w))
+            out = os.path.join(tmpd, 'w%d.json' % w)
+            procs.append((out, subprocess.Popen([sys.executable, os.path.abspath(__file__), pid, '--tier', 'thorough', '--worker', out], env=env,
+                                                stdout=subprocess.DEVNULL, stderr=subprocess.DEVNULL)))
+        fan = {'workers': nworkers, 'seeds': [], 'evaluations': 0, 'nontrivial': 0, 'failures': 0, 'errors': 0}
+        for out, pr in procs:
+            pr.wait()
+            try:
+                w = json.load(open(out))
+            except Exception:
+                fan['errors'] += 1
+                harness_error = harness_error or 'a thorough-tier worker produced no result (%s)' % out
+                continue
+            fan['seeds'].append(w['seed'])
+            fan['evaluations'] += w['evaluations']
+            fan['nontrivial'] += w['nontrivial']
+            fan['failures'] += len(w['failures'])
+            if w.get('error'):
+                fan['errors'] += 1
+                harness_error = harness_error or w['error']
+            for f in w['failures']:
+                f['seed'] = w['seed']
+                res.fail(**f)
+        import shutil
+        shutil.rmtree(tmpd, ignore_errors=True)
 
     golden = None
     if tier == 'thorough' and ctx.model is not None:
@@ -207,6 +261,7 @@ def main():
             'translator': {k: v['status'] for k, v in tstatus.items()},
             'translator_frozen': frozen,
             'model_calls': ctx.model.calls if ctx.model else 0,
+            'further_seeds': fan if fan else 'not run in the quick tier',
             'known_findings_seen': sorted(seen),
             'extraction_cross_check': ({'cases_evaluated_in_coq': golden[1], 'agree': golden[0]} if golden else 'not run in the quick tier'),
             'coqchk': ({'accepted': chk[0], 'axioms': chk[1]} if chk else 'not run in the quick tier'),
@@ -224,8 +279,9 @@ def main():
     json.dump(ev, open(os.path.join(VERIF, 'evidence', pid + '.json'), 'w'), indent=1)
     if ctx.model:
         ctx.model.close()
-    print('[%s] tier=%s obligations=%d discharged=%d evaluations=%d nontrivial=%d failures=%d known=%d wall=%.1fs'
-          % (pid, tier, obligations, discharged, res.evaluations, len(res.nontrivial), len(unknown), len(known_lines), time.time() - t0))
+    print('[%s] tier=%s obligations=%d discharged=%d evaluations=%d nontrivial=%d failures=%d known=%d wall=%.1fs%s'
+          % (pid, tier, obligations, discharged, res.evaluations, len(res.nontrivial), len(unknown), len(known_lines), time.time() - t0,
+             (' further_seeds=%d (+%d evaluations)' % (len(fan['seeds']), fan['evaluations'])) if fan else ''))
     sys.exit(1 if violations else 0)
 
 
